@@ -53,6 +53,7 @@ void hk_wait_block(struct vt_wait *w);	/* zero-time-out probe found nothing, the
 int  hk_quiescent(void);
 /* called at every detected quiescence (all threads blocked, nothing in flight), before virtual time is advanced */
 void hk_idle(void);
+void hk_deadlock(const char *kind, const char *desc);	/* default: prints a DEADLOCK line and _exit(4) */
 void hk_dead_end(void);			/* hk_quiescent returned 0: harness reports + ends the case */
 void hk_write(int fd, const void *buf, size_t n, long ret, int err, int fl_nonblock);
 void hk_read(int fd, const void *buf, size_t n, long ret, int err);
